@@ -136,6 +136,159 @@ class StreamRead(Component):
     def nontrivial(self, case, impl):
         return 'E/' in impl and impl.count(';') >= 1
 
+# ------------------------------------------------------------------------------------------------
+# C01 / C02 / C19 — raw frames through the real encoder
+# ------------------------------------------------------------------------------------------------
+def frame_bound_bytes(n, ch, bps):
+    bits = 0
+    for i in range(ch):
+        b = bps + (1 if (ch == 2 and i == 1) else 0)
+        bits += 8 + 33 + n * b
+    return 16 + (bits + 7) // 8 + 2
+
+class EncFrame(Component):
+    """one frame through FlacStreamWriter::write; decoded again by the crate (C01), by the Lean model
+    of the crate's decoder, and by the independent L0 decoder (C02); size checked against C19's bound"""
+    name = 'encframe'
+    ops = ('encframe',)
+    profiles = ('release',)
+    def __init__(self, focus='all'):
+        self.focus = focus
+    def one(self, rng, n, ch, bps, shape=None, opts=None, rate=None, num=None):
+        pcm, shape = gen.pcm_multi(rng, n, ch, bps, shape)
+        f = dict(opts if opts is not None else gen.option_fields(rng))
+        f['rate'] = rate or rng.choice(gen.SUBSET_RATES)
+        f['ch'] = ch; f['bps'] = bps
+        if num:
+            f['n'] = num
+        f['shape'] = shape
+        f['pcm'] = gen.join(pcm)
+        return 'encframe ' + gen.fields_str(f)
+    def cases(self, rng, tier, boost):
+        out = []
+        # exhaustive short lengths x shapes (mono and stereo), a few option sets
+        optsets = [{}, {'lpc': 'none'}, {'lpc': '32', 'po': '15'}, {'lpc': '1', 'po': '0'}, {'lpc': '12', 'po': '8', 'exh': '0'}, {'lpc': '2', 'ms': '0', 'win': 'rect'}]
+        maxlen = 48 if tier == 'quick' else 96
+        shapes = gen.SHAPES
+        for n in range(1, maxlen + 1):
+            for si, sh in enumerate(shapes):
+                if tier == 'quick' and (n + si) % 3 != 0 and n > 8:
+                    continue
+                o = optsets[(n + si) % len(optsets)]
+                bps = gen.SUBSET_BPS[(n * 7 + si) % len(gen.SUBSET_BPS)]
+                out.append(self.one(rng, n, 1, bps, sh, o, 44100))
+                out.append(self.one(rng, n, 2, bps, sh, o, 48000))
+        nrand = self.budget(tier, boost, 600, 40000)
+        for i in range(nrand):
+            ch = rng.choice([1, 1, 2, 2, 2, 3, 4, 5, 6, 7, 8])
+            bps = rng.choice(gen.SUBSET_BPS)
+            n = rng.choice([1, 2, 3, 4, 5, 6, 7, 8, 9, 15, 16, 17, 31, 32, 33, 63, 64, 65, 100, 128, 192, 255, 256, 257, 576, 1000, 1152])
+            if tier == 'quick' and n * ch > 1200:
+                n = max(1, 1200 // ch)
+            if tier == 'thorough' and rng.random() < 0.01:
+                n = rng.choice([4096, 4608, 16384, 65535])
+            out.append(self.one(rng, n, ch, bps, None, None, None, rng.choice([0, 0, 0, 1, 2, 3]) if n * ch < 300 else 0))
+        return out
+    def oracle(self, case, impl, profile):
+        op, cf = parse_case(case)
+        h, cls, f = parse_outcome(impl)
+        if h == 'panic':
+            return (panic_sig(self.name, impl), 'the encoder panicked: ' + cls)
+        if h != 'ok':
+            return (f'{self.name}:encode-failed:{cls}', 'encoding a legal block failed: ' + impl[:200])
+        ch, bps = int(cf['ch']), int(cf['bps'])
+        if self.focus in ('all', 'roundtrip'):
+            if f.get('dec') != cf['pcm']:
+                return (f'{self.name}:roundtrip-mismatch', 'decoding the frame does not return the samples that were written: dec=' + f.get('dec', '')[:120])
+            if (f.get('drate'), f.get('dch'), f.get('dbps')) != (cf['rate'], cf['ch'], cf['bps']):
+                return (f'{self.name}:parameter-mismatch', 'decoded rate/channels/depth differ from what was written')
+        if self.focus in ('all', 'size'):
+            n = len(ints(cf['pcm'])) // ch
+            size = len(f.get('bytes', '')) // 2
+            if size > frame_bound_bytes(n, ch, bps):
+                return (f'{self.name}:expands-beyond-verbatim', f'frame of {size} bytes exceeds verbatim bound {frame_bound_bytes(n, ch, bps)} ({n} x {ch} x {bps})')
+            if cf.get('shape') in ('zeros', 'const') and self.all_const(cf, ch) and size > 16 + 2 + ch * 12:
+                return (f'{self.name}:constant-block-large', f'a block of constant samples costs {size} bytes for {ch} channel(s)')
+        return None
+    def all_const(self, cf, ch):
+        x = ints(cf['pcm'])
+        return all(len(set(x[c::ch])) == 1 for c in range(ch))
+    def nontrivial(self, case, impl):
+        return impl.startswith('ok') and len(case) > 60
+    def classify(self, case, impl):
+        op, cf = parse_case(case)
+        h, cls, f = parse_outcome(impl)
+        sub = 'sub?'
+        return ['shape=' + cf.get('shape', '?'), 'ch=' + cf.get('ch', '?'), 'bps=' + cf.get('bps', '?'), 'lpc=' + cf.get('lpc', 'default')]
+
+class RoundTripFile(Component):
+    """whole files: 3 writer front-ends x 4 reader front-ends (+ verify), PCM must come back exactly"""
+    name = 'rtfile'
+    ops = ('rt',)
+    profiles = ('release',)
+    model = False
+    def cases(self, rng, tier, boost):
+        out = []
+        n = self.budget(tier, boost, 500, 30000)
+        for i in range(n):
+            ch = rng.choice([1, 1, 2, 2, 2, 3, 4, 6, 8])
+            bps = rng.choice([4, 5, 7, 8, 9, 12, 15, 16, 17, 20, 23, 24, 25, 31, 32]) if rng.random() < 0.7 else rng.randint(4, 32)
+            bs = rng.choice([16, 17, 18, 20, 32, 33, 64, 100, 192, 256, 576, 4096])
+            frames = rng.choice([1, 2, 3, 5, 8, 15, 16, 17, 18, 31, 33, 40, 64, 65, 100, 200, 300])
+            if rng.random() < 0.3:
+                frames = bs * rng.randint(1, 3) + rng.choice([0, 1, 2, 3, 5, 8])
+            if tier == 'quick' and frames * ch > 900:
+                frames = max(1, 900 // ch)
+            pcm, shape = gen.pcm_multi(rng, frames, ch, bps)
+            f = gen.option_fields(rng)
+            f.update({'fe': rng.choice(['byte', 'sample', 'chan']), 'reader': rng.choice(['byte', 'sample', 'iter', 'chan']),
+                      'endian': rng.choice(['le', 'be']), 'rate': rng.choice([8000, 44100, 48000, 96000, 1, 655350, 1048575, 12345]),
+                      'ch': ch, 'bps': bps, 'bs': bs, 'pad': rng.choice([0, 0, 16, 100]),
+                      'seek': rng.choice(['off', 'default', 'frames:1', 'frames:3', 'secs:1']),
+                      'shape': shape})
+            unit = {'byte': ch * ((bps + 7) // 8), 'sample': ch, 'chan': 1}[f['fe']]
+            if rng.random() < 0.5:
+                f['total'] = frames * unit
+            total_units = frames * unit if f['fe'] != 'chan' else frames
+            k = rng.randint(0, 4)
+            f['chunks'] = gen.join(sorted(rng.randint(1, max(1, total_units)) for _ in range(k))) if False else gen.join([rng.randint(1, max(1, total_units // 2 + 1)) for _ in range(k)])
+            f['chunk'] = rng.choice([1, 3, 7, 64, 4096])
+            f['pcm'] = gen.join(pcm)
+            out.append('rt ' + gen.fields_str(f))
+        return out
+    def oracle(self, case, impl, profile):
+        op, cf = parse_case(case)
+        h, cls, f = parse_outcome(impl)
+        if h == 'panic':
+            return (panic_sig(self.name, impl), 'writer or reader panicked: ' + cls)
+        if h != 'ok':
+            return (f'{self.name}:failed:{cls}', 'a legal file could not be written/read: ' + impl[:200])
+        ch, bps = int(cf['ch']), int(cf['bps'])
+        want = ints(cf['pcm'])
+        if 'bytes' in f:
+            bpsb = (bps + 7) // 8
+            raw = bytes.fromhex(f['bytes'])
+            got = []
+            for i in range(0, len(raw) - bpsb + 1, bpsb):
+                chunk = raw[i:i + bpsb]
+                got.append(int.from_bytes(chunk, 'big' if cf.get('endian') == 'be' else 'little', signed=True))
+            if len(raw) % bpsb:
+                got.append(None)
+        else:
+            got = ints(f.get('pcm', '-'))
+        if got != want:
+            return (f'{self.name}:pcm-mismatch:{cf["fe"]}->{cf["reader"]}', f'PCM read back differs from PCM written ({len(got)} vs {len(want)} samples)')
+        if (f.get('rate'), f.get('ch'), f.get('bps')) != (cf['rate'], cf['ch'], cf['bps']):
+            return (f'{self.name}:parameter-mismatch', 'rate/channels/depth differ')
+        if f.get('total') != str(len(want) // ch):
+            return (f'{self.name}:total-mismatch', f'STREAMINFO total {f.get("total")} != {len(want)//ch}')
+        if 'MD5Match' not in f.get('verify', ''):
+            return (f'{self.name}:md5-verify', 'verify_reader does not report MD5Match: ' + f.get('verify', ''))
+        return None
+    def classify(self, case, impl):
+        op, cf = parse_case(case)
+        return [f'fe={cf.get("fe")}', f'reader={cf.get("reader")}', f'bps={cf.get("bps")}', f'ch={cf.get("ch")}']
+
 PROPS = {}
 NOT_YET = {}
 
@@ -158,4 +311,64 @@ PROPS['C16'] = dict(
     assumptions=['segmentation independence is a property of the model by construction (the model never sees the split points); '
                  'for the implementation it is exhibited by the correspondence over generated segmentations, not proved',
                  'no_sync_no_loss carries the hypothesis that each written frame decodes (C01) and begins FF F8|F9'],
+)
+
+C01_THEOREMS = ['Flac.C01.stereo_leftside_inverse', 'Flac.C01.stereo_sideright_inverse', 'Flac.C01.stereo_midside_inverse',
+                'Flac.C01.wasted_inverse', 'Flac.C01.predict_restore', 'Flac.C01.layout_agree',
+                'Flac.C01.rice_fold_neg', 'Flac.C01.rice_fold_pos', 'Flac.C01.fold_unfold']
+
+PROPS['C01'] = dict(
+    module='FlacModel.Props.C01',
+    theorems=C01_THEOREMS,
+    components=[EncFrame('roundtrip'), RoundTripFile()],
+    rule='encframe: every length 1..48 (quick) / 1..96 (thorough) x 11 signal shapes x mono/stereo x 6 option sets, plus random '
+         '(channels 1-8, depth in the subset codes, lengths around powers of two and block-size codes, all option dimensions); '
+         'rtfile: whole files through byte/sample/channel writers and byte/sample/iterator/channel readers, depths 4-32, short final blocks; '
+         'non-trivial = encoded successfully with more than a handful of samples; distinct by case text',
+    claim='Mechanism theorems proved for ALL inputs about the arithmetic kernels regenerated from encode.rs/decode.rs on every run: '
+          'stereo_{leftside,sideright,midside}_inverse (no trap, no wrap, depth <= 31), wasted_inverse, predict_restore (for every coefficient '
+          'list and shift, i.e. whatever the float LPC analysis chose), layout_agree (every partition slicing the encoder accepts is the one the '
+          'decoder derives), rice_fold_*/fold_unfold. The end-to-end statement (all writer x reader front-ends) is assembled from these by the '
+          'correspondence run, not yet by one composed theorem (file_roundtrip is _partial).',
+    note='The composition of the mechanisms into whole-frame/whole-file round trip is exhibited by the real encoder -> real decoder / Lean decoder '
+         'model / independent L0 decoder on generated inputs, not proved as one theorem; the FIXED-predictor binomial identity is not yet mechanised. '
+         'Heuristic choices (LPC analysis, Rice parameter estimate) are universally quantified, never modelled.',
+    trusted_base=COMMON_TRUST,
+    assumptions=['samples fit the declared depth (hypothesis of the property)', 'f64 LPC analysis is outside the model: theorems hold for every coefficient choice'],
+)
+
+PROPS['C02'] = dict(
+    module='FlacModel.Props.C02',
+    theorems=['Flac.C02.gen_crc8_is_poly07', 'Flac.C02.gen_crc16_is_poly8005', 'Flac.C02.gen_crc8_update_shape',
+              'Flac.C02.gen_crc16_update_shape', 'Flac.C02.gen_crc16_one_byte', 'Flac.C02.gen_crc8_one_byte',
+              'Flac.C02.gen_tables_eq_rfc', 'Flac.C02.gen_write_read_inverse', 'Flac.C02.rfc_layout_is_rchunks'],
+    components=[EncFrame('spec')],
+    rule='every generated frame of the real encoder (same space as C01) is decoded by the independent L0 decoder Spec.specDecode '
+         '(RFC partition layout, every MUST of section 9, bit-serial CRC-8/CRC-16, exact integer reconstruction) which must accept it, consume exactly '
+         'the frame, read the declared rate/depth/channels/frame number and reproduce the input PCM; non-trivial = encoded frame with more than a handful of samples',
+    claim='Obligations re-proved on every run against definitions regenerated from the source: both CRC tables equal the tables of the RFC polynomials '
+          '(all 256 entries, decide +kernel against a bit-serial LFSR), the update expressions have the MSB-first table-driven shape, every header code '
+          'table equals the RFC table, writer codes are read back to the same values, and the slicing the encoder keeps is the RFC partition layout '
+          '(rfc_layout_is_rchunks). Frame-level conformance of the whole output (enc_is_serialize) is decided by the independent L0 decoder on generated '
+          'inputs, not yet by a theorem over an encoder model.',
+    note='L0 is my reading of RFC 9639 (no network); the byte-wise/bit-wise CRC equivalence beyond one-byte messages is the textbook identity and is '
+         'exercised, not mechanised; whole-file rules (consecutive numbering, non-final block size) are checked under C09.',
+    trusted_base=COMMON_TRUST + ['Spec/Rfc.lean as the rendering of RFC 9639 section 9'],
+    assumptions=['samples fit the declared depth'],
+)
+
+PROPS['C19'] = dict(
+    module='FlacModel.Props.C19',
+    theorems=['Flac.C19.subframe_bits_le_verbatim', 'Flac.C19.pick_le_fixed', 'Flac.C19.constant_block_small_partial',
+              'Flac.C19.header_bits_le', 'Flac.C19.frame_bytes_bound'],
+    components=[EncFrame('size')],
+    rule='every generated frame of the real encoder is measured against 16 + ceil(sum over channels of (41 + n x depth_i))/8 + 2 bytes '
+         '(depth+1 for one channel of a stereo pair); constant blocks against 18 + 12 bytes per channel; shapes include full-scale noise, '
+         'alternating extremes and low-amplitude noise designed to defeat the Rice estimate',
+    claim='subframe_bits_le_verbatim: for EVERY candidate size (whatever the heuristics produced) the subframe chosen by the fallback comparison '
+          'extracted from encode_subframe is no larger than VERBATIM; pick_le_fixed / constant_block_small_partial: the result is never larger than '
+          'the FIXED candidate plus a header; header_bits_le: a frame header is at most 15 bytes + CRC-8; frame_bytes_bound composes them.',
+    note='The bit count of the FIXED candidate for a constant block (a few dozen bits) is measured on the real encoder, not derived from a model of write_residuals.',
+    trusted_base=COMMON_TRUST,
+    assumptions=['the recorded candidate size equals the bits later played back (BitRecorder is trusted)'],
 )
